@@ -369,12 +369,16 @@ func m4Decode(rs io.ReadSeeker) string {
 		m4Offsets(&b, es)
 		ch <- b.String()
 	}()
-	select {
-	case r := <-ch:
-		return r
-	case <-time.After(wait):
-		return "hang"
+	if _, sparse := rs.(*sparseFile); sparse {
+		// (the library allocates the whole media data box: no memory criterion here)
+		select {
+		case r := <-ch:
+			return r
+		case <-time.After(wait):
+			return "hang"
+		}
 	}
+	return waitOrRunaway(ch, wait)
 }
 
 // m4Echo checks the synthesiser against mp4ff: the tables written are the tables parsed.
